@@ -38,6 +38,12 @@ CHECKS.update({
               note="numbers compared with relative tolerance 1e-5 (6 significant digits written); ids of content elements are not round-tripped by the reader and are left out; IMSC 'default' generic family == monospaceSerif", ref="3/C05"),
 })
 
+CHECKS.update({
+  "C16": dict(cat="exploration", tech="bounded-exhaustive enumeration of (document, filter configuration) pairs; post-conditions on the filtered document and its snapshots plus metamorphic relations (text timeline preserved, idempotence)",
+              text="every document of the region-geometry, region-merging and content families under the stated configurations is filtered by the real LCDDocFilter; no exception, no animation left, style whitelist, safe area (specified and computed in snapshots), merged regions, registered references, visible text unchanged at every critical time for documents without display/visibility/opacity, configured colours/alignment computed, filter(filter(d)) == filter(d)",
+              note="text compared region-agnostically as sorted visible text leaves; writing mode is removed by the filter by design", ref="3/C16"),
+})
+
 PENDING = {}
 
 
